@@ -18,7 +18,8 @@ def carrier_list(tier):
     more = [('np:' + d, []) for d in INT_DTYPES + FLT_DTYPES if d not in ('float64', 'int64')] + \
            [('arr:' + d, [2]) for d in INT_DTYPES + FLT_DTYPES if d not in ('float64', 'int64')] + \
            [('arr:float64', [3]), ('arr:float64', [2, 2]), ('arr:int64', [1])] + \
-           [('nplist:' + d, [2]) for d in ('uint8', 'int8', 'int32', 'uint16', 'float16', 'float32')]      # Python lists of narrow NumPy integer / float scalars
+           [('nplist:' + d, [2]) for d in ('uint8', 'int8', 'int32', 'uint16', 'float16', 'float32')] + \
+           [('arrF:float64', [2, 2]), ('arrF:int64', [2, 2])]      # Python lists of narrow NumPy integer / float scalars; 2-d arrays in Fortran (transposed) memory order
     return base + more
 
 
@@ -73,6 +74,8 @@ def build_carrier(P, kind, vals, shape):
         return [P.npscalar(v, dt) for v in vals]
     if k == 'np':
         return P.npscalar(vals[0], dt)
+    if k == 'arrF':
+        return f_ordered(P.arr(vals, dtype=dt, shape=tuple(shape)))
     return P.arr(vals, dtype=dt, shape=tuple(shape))
 
 
